@@ -33,6 +33,7 @@ sys.exit(0)
 
 def register(R, tier="quick"):
     register_matches(R)
+    register_filter(R)
     def mk(I, **kw):
         items = HeapList(I, "items")
         I.assume(items.is_heap)
@@ -225,3 +226,151 @@ def register_matches(R):
                          Canary("skips-by-current-threshold-plus", "matcher.skip_to_quality(minscore)", "matcher.skip_to_quality(minscore + 1)")],
                note="everything the generator does not yield scores at most the collector's (monotonically rising) threshold; "
                     "without quality support nothing is dropped at all")
+
+
+def register_filter(R):
+    """C14 / C01 — FilterCollector: `filter=` and `mask=` restrict what reaches the wrapped collector to
+
+        PASS(d)  :=  (allow is None or d in allow) and (restrict is None or d not in restrict)          d = offset + sub_docnum
+
+    collect_matches(): of the child's matches M(0..n) exactly those with PASS are handed to child.collect, each once, in
+    order; filtered_count grows by the number of the others.  all_ids(): yields exactly the passing ids of child.all_ids().
+    Ghost: KEPT(i) = number of passing matches among the first i (defining equation instantiated where mentioned); the child
+    stub knows which match the loop is on and asserts that collect() gets that match and that it passes."""
+    from pyvc.values import Abstract, SpecFn
+    IntS, BoolS = z3.IntSort(), z3.BoolSort()
+    M = z3.Function("fc_match", IntS, IntS)
+    ALLOW = z3.Function("fc_allow", IntS, BoolS)
+    RESTRICT = z3.Function("fc_restrict", IntS, BoolS)
+    KEPT = z3.Function("fc_kept", IntS, IntS)
+
+    class IdSet(Abstract):
+        def __init__(self, fn):
+            self.fn = fn
+
+        def havoc(self, I):
+            pass
+
+        def is_none(self, I):
+            return False
+
+        def contains(self, I, x):
+            return self.fn(to_z3(x))
+
+    class Matches(Abstract):
+        def __init__(self, I, child):
+            self.child = child
+            self.n = z3.Int(I.fresh_name("nmatches"))
+            I.assume(self.n >= 0)
+
+        def havoc(self, I):
+            pass
+
+        def __deepcopy__(self, memo):
+            return self
+
+        def a_n(self, I):
+            return self.n
+
+        def iter_protocol(self, I):
+            def get(i):
+                self.child.cur = to_z3(i)
+                return M(to_z3(i))
+            return 0, self.n, 1, get
+
+    class Child(Abstract):
+        def __init__(self, I, passes):
+            self.passes = passes             # python function id -> z3 Bool
+            self.cur = z3.IntVal(-1)
+            self.ncollected = z3.IntVal(0)
+            self.forwarded = False
+            self.seq = Matches(I, self)
+
+        def havoc(self, I):
+            self.ncollected = z3.Int(I.fresh_name("ncollected"))
+
+        def m_matches(self, I):
+            return self.seq
+
+        def m_all_ids(self, I):
+            return self.seq
+
+        def m_collect(self, I, sub_docnum):
+            I.oblige("assert", "collect-the-current-passing-match",
+                     z3.And(to_z3(sub_docnum) == M(self.cur), self.passes(I.ghost["fc_offset"] + M(self.cur))),
+                     note="child.collect() is given the match the loop is on, and only when that document passes filter and mask")
+            self.ncollected = self.ncollected + 1
+
+        def m_collect_matches(self, I):
+            self.forwarded = True
+
+    def mk(I, allow, restrict, gen=False):
+        def passes(d):
+            cs = []
+            if allow:
+                cs.append(ALLOW(d))
+            if restrict:
+                cs.append(z3.Not(RESTRICT(d)))
+            return z3.And(*cs) if cs else z3.BoolVal(True)
+        child = Child(I, passes)
+        off = z3.IntVal(0) if gen else z3.Int("offset")
+        I.ghost["fc_offset"] = off
+        I.ghost["fc_passes"] = passes
+        I.ghost["fc_child"] = child
+        I.assume(KEPT(0) == 0)
+        fields = {"child": child, "_allow": IdSet(ALLOW) if allow else None, "_restrict": IdSet(RESTRICT) if restrict else None,
+                  "filtered_count": z3.Int("filtered0"), "offset": off}
+        return {"self": Obj(I.repo.klass(CL, "FilterCollector"), fields), "allow": allow, "restrict": restrict}
+
+    def kept(I, i):
+        i = to_z3(i)
+        I.assume(KEPT(i + 1) == KEPT(i) + z3.If(I.ghost["fc_passes"](I.ghost["fc_offset"] + M(i)), 1, 0))
+        return KEPT(i)
+
+    def cm_inv(I, env):
+        ch = I.ghost["fc_child"]
+        k = to_z3(env["_k"])
+        return z3.And(ch.ncollected == kept(I, k), to_z3(env["filtered_count"]) == to_z3(I.old_env["self"].fields["filtered_count"]) + k - kept(I, k),
+                      k <= ch.seq.n)
+
+    def cm_post(I, env):
+        ch = I.ghost["fc_child"]
+        n = ch.seq.n
+        if not env["allow"] and not env["restrict"]:
+            return z3.And(z3.BoolVal(ch.forwarded), ch.ncollected == 0,
+                          env["self"].fields["filtered_count"] == I.old_env["self"].fields["filtered_count"])
+        return z3.And(z3.BoolVal(not ch.forwarded), ch.ncollected == kept(I, n),
+                      env["self"].fields["filtered_count"] == I.old_env["self"].fields["filtered_count"] + n - kept(I, n))
+
+    variants = [dict(allow=True, restrict=False), dict(allow=False, restrict=True), dict(allow=True, restrict=True),
+                dict(allow=False, restrict=False)]
+    R.contract(CL + ":FilterCollector.collect_matches", props=["C14", "C01"], setup=mk, variants=variants,
+               ensures=[cm_post],
+               loops={0: LoopSpec(index="_k", inv=[cm_inv], modifies=["self.child", "filtered_count"])},
+               canaries=[Canary("mask-inverted", "global_docnum in _restrict", "global_docnum not in _restrict"),
+                         Canary("filter-inverted", "global_docnum not in _allow", "global_docnum in _allow"),
+                         Canary("offset-forgotten", "global_docnum = self.offset + sub_docnum", "global_docnum = sub_docnum"),
+                         Canary("filtered-not-counted", "filtered_count += 1", "pass"),
+                         Canary("collected-twice", "child.collect(sub_docnum)", "child.collect(sub_docnum); child.collect(sub_docnum)")],
+               note="filter / mask: exactly the matches inside the allow set and outside the restrict set reach the wrapped "
+                    "collector (once, in order); filtered_count counts the others; with neither set the call is forwarded")
+
+    def ids_post(I, env):
+        ch = I.ghost["fc_child"]
+        return z3.And(I.ghost["ok"] if not isinstance(I.ghost["ok"], bool) else z3.BoolVal(I.ghost["ok"]),
+                      to_z3(I.ghost["ny"]) == kept(I, ch.seq.n))
+
+    def good_yield(I, y, i):
+        return z3.And(to_z3(y) == M(to_z3(i)), I.ghost["fc_passes"](M(to_z3(i))))
+
+    R.contract(CL + ":FilterCollector.all_ids", props=["C14", "C01"], setup=lambda I, allow, restrict: mk(I, allow, restrict, gen=True),
+               variants=variants,
+               spec_funcs={"good_yield": SpecFn("good_yield", good_yield), "kept": SpecFn("kept", kept)},
+               ghost="ok = True\nny = 0\n",
+               on_yield="ok = ok and good_yield(_y, _k)\nny = ny + 1\n",
+               ensures=[ids_post],
+               loops={0: LoopSpec(index="_k", inv=["ok", "ny == kept(_k)", lambda I, env: to_z3(env["_k"]) <= I.ghost["fc_child"].seq.n],
+                                  havoc=["ok", "ny"])},
+               canaries=[Canary("mask-inverted", "global_docnum in _restrict", "global_docnum not in _restrict"),
+                         Canary("filter-inverted", "global_docnum not in _allow", "global_docnum in _allow")],
+               note="all_ids() under filter / mask yields exactly the passing ids of the wrapped collector, each once, in order")
